@@ -203,6 +203,9 @@ def _ssqrt(x):
 
 def sqrt(a, **k):
     if not _any_sym(a):
+        if core.CTX is not None and isinstance(a, (int, float, _np.integer, _np.floating)) and not isinstance(a, bool) and _np.isfinite(a) and a >= 0:
+            # sqrt of a concrete number inside a symbolic run is the exact algebraic constant (sqrt(2) is not 1.4142135623730951)
+            return _ssqrt(ctx().const(a))
         return _np.sqrt(a, **k)
     return _map1(_ssqrt, a)
 
